@@ -122,6 +122,16 @@ class Hist:
             self.selfrep = True
         else:
             self.selfrep = False
+        if r.random() < 0.3:
+            # a procedure with an internal definition stores a closure of its frame into a vector it is given (and into a local vector it returns)
+            F.append(parse("(define slots (vector 0 0 0))"))
+            F.append(parse("(define (register! vec k start) (define total start) (vector-set! vec k (lambda (d) (set! total (+ total d)) total)) k)"))
+            F.append(parse("(define (make-ops start) (define total start) (define ops (vector (lambda (d) (set! total (+ total d)) total) (lambda () total))) ops)"))
+            F.append(parse("(define ops1 (make-ops 50))"))
+            F.append([S("register!"), S("slots"), 0, self.uniq()]); F.append([S("register!"), S("slots"), 2, self.uniq()])
+            self.regs = True
+        else:
+            self.regs = False
         self.big = None
         if r.random() < 0.25:
             # a vector of hundreds of slots with an alias: writes and reads at both ends and in the middle
@@ -140,6 +150,11 @@ class Hist:
         while len(F) < steps:
             c = r.random()
             wrote = True
+            if self.regs and r.random() < 0.12:
+                F.append(r.choice([[[S("vector-ref"), S("slots"), r.choice([0, 2])], r.randint(1, 9)], [[S("vector-ref"), S("ops1"), 0], r.randint(1, 9)],
+                                   [S("list"), [[S("vector-ref"), S("ops1"), 1]], [[S("vector-ref"), S("slots"), 0], 0], [[S("vector-ref"), S("slots"), 2], 0]],
+                                   [S("register!"), S("slots"), 1, self.uniq()]]))
+                continue
             if self.selfrep and r.random() < 0.12:
                 F.append(r.choice([parse("(once!)"), parse("(list (old-count-down 2) (count-down 3))"), [S("replace!"), self.uniq()], parse("(list (old-count-down 1) (count-down 1) (eq? old-count-down count-down))")]))
                 continue
